@@ -1,7 +1,9 @@
 """C17 — stepping a script through the debugger interface preserves its meaning."""
 PROP = dict(
     modules=["CG.Props.C17"],
-    required_theorems=["C17_codesep_not_carried"],
+    required_theorems=["C17_codesep_not_carried", "C17_break_beyond_end", "C17_reported_offset", "C17_reported_list",
+                       "C17_split_eq_single_partial", "C17_split_failure", "C17_split_eq_single_depth_zero", "C17_single_ok_split_ok",
+                       "C17_verdict_preserved", "C17_split_eq_single_false"],
     rule="c17.split: grammar scripts cut into two segments at EVERY opcode boundary of conditional depth zero and into three "
          "segments at (quick: a 1/4 sample of; thorough: all) pairs of such boundaries, plus break offsets inside push data and at/"
          "beyond the end; each segment starts at the offset the previous one reported, carrying both stacks and the checker object. "
@@ -14,7 +16,10 @@ PROP = dict(
 CLAIM = dict(
     text="Segmented evaluation through start_at/break_at/initial stacks is modelled (CG.Model.Stepping) on top of the interpreter model "
          "and compared with the real interface on every depth-zero split of grammar scripts; the one state the interface cannot carry "
-         "(the OP_CODESEPARATOR position) is a recorded finding with a kernel-checked witness. Theorems on split = single run are being "
-         "extended (see evidence for the current list).",
+         "(the OP_CODESEPARATOR position) is a recorded finding with a kernel-checked witness. Theorems (any number of segments, any script, flags, "
+         "checker that ignores its script argument): a successful segmented run equals the single run (stacks, alt stack, checker "
+         "state); a segmented failure is the single run's failure or an open conditional at a break; break >= len equals no break; the "
+         "reported offset is the requested boundary rounded up to the next opcode boundary on the execution path or the terminating "
+         "OP_RETURN; the unqualified statement is refuted by the separator witness.",
     note="Trusted: Lean kernel; differential tie bounded by generators.",
 )
